@@ -11,7 +11,7 @@ import (
 )
 
 func init() {
-	register("C07", "Structural clauses of the receiver's side of the wire protocol, decided on all paths of the receive loop and the request callback: the receiver's id counter advances by one on every loop iteration that handled a STAT carrying a stat and on no other (so it equals the sender's running index whatever the stream contains), ids are registered pre-increment only for selected regular files, a request is issued exactly once per path under one lock region with the pipe registered before REQ is sent, DATA payloads are written synchronously into non-retaining sinks (no-retain analysis over all VTA targets), FIN is sent only after diff and writers completed, and end of stream before FIN is an error. Does not decide behaviour for every chunking/interleaving nor that the requested set is exactly the needed set.", runC07)
+	register("C07", "Structural clauses of the receiver's side of the wire protocol, decided on all paths of the receive loop and the request callback: the receiver's id counter advances by one on every loop iteration that handled a STAT carrying a stat and on no other (so it equals the sender's running index whatever the stream contains), ids are registered pre-increment only for selected regular files, a request is issued exactly once per path under one lock region with the pipe registered before REQ is sent, DATA payloads are written synchronously into non-retaining sinks (no-retain analysis over all VTA targets), FIN is sent only after diff and writers completed, and end of stream before FIN is an error. The equality that decides whether an existing entry is requested again compares each stat field of one side with the same field of the other side. Does not decide behaviour for every chunking/interleaving nor that the requested set is exactly the needed set.", runC07)
 }
 
 func runC07(c *Ctx) {
@@ -36,6 +36,10 @@ func runC07(c *Ctx) {
 	// the group's cancellation only if the writer was built on the group context
 	// (shared with C04)
 	r04_10(c, "R07.9")
+	// "never requests unchanged files, requests each file it needs": the
+	// equality that decides whether an entry is requested compares each stat
+	// field of one side with the same field of the other (shared with C02)
+	r02_1(c, "R07.11")
 }
 
 // recvLoop returns the receive-loop literal of receiver.run.
